@@ -58,6 +58,9 @@ static J gen_json(int depth, TreeStats &ts, bool top) {
 struct RdCtx { J header, claims; bool ran = false; bool ok = true; std::string why; };
 static int read_cb(jwt_t *jwt, jwt_config_t *c) {
   RdCtx *x = (RdCtx *)c->ctx; x->ran = true;
+  // an application that does not know the types in advance probes: typed reads of present members with every type and of absent
+  // ones (these return TYPE / NOEXIST; reading is all the callback does)
+  { jwt_value_t g; for (const char *n : {"alg", "typ", "iat", "exp", "sub", "nosuch"}) for (int ty = JWT_VALUE_INT; ty <= JWT_VALUE_BOOL; ty++) { g = val_get((jwt_value_type_t)ty, n); jwt_header_get(jwt, &g); g = val_get((jwt_value_type_t)ty, n); jwt_claim_get(jwt, &g); } }
   jwt_value_t v = val_get(JWT_VALUE_JSON, nullptr);
   if (jwt_header_get(jwt, &v) || !v.json_val) { x->ok = false; x->why = "header_get-failed"; return 0; }
   J h = J::parse(v.json_val); free(v.json_val);
